@@ -22,6 +22,14 @@ BREAKS = [
   '\t\t\t0,\n\t\t\tint64(gpuIndex * numWi / numGPUs), 0, 0,', '\t\t\t0,\n\t\t\tint64(gpuIndex*numWi/numGPUs + 1), 0, 0,', 1),
  ('driver-unified-gpu-wg-range-off-by-one', 'amd/driver/driver.go',
   'wgDist[i+1] = wgAllocated + wgToAllocate', 'wgDist[i+1] = wgAllocated + wgToAllocate - 1', 1),
+ ('driver-unified-gpu-wg-per-cu-rounds-down', 'amd/driver/driver.go',
+  'wgPerCU := (totalWGCount-1)/totalCUCount + 1', 'wgPerCU := totalWGCount/totalCUCount + 1', 1),
+ ('emu-ds-write-b32-ignores-offset', 'amd/emu/aluds.go',
+  'addr0 := uint32(state.ReadOperand(inst.Addr, i)) + inst.Offset0\n\t\tdata := state.ReadOperandBytes(inst.Data, i, 4)\n\t\tcopy(lds[addr0:addr0+4], data)', 'addr0 := uint32(state.ReadOperand(inst.Addr, i))\n\t\tdata := state.ReadOperandBytes(inst.Data, i, 4)\n\t\tcopy(lds[addr0:addr0+4], data)', 1),
+ ('matrixtranspose-host-group-offset-off-by-one', 'amd/benchmarks/amdappsdk/matrixtranspose/matrixtranspose.go',
+  '\t\t\twgXPerGPU * uint32(gpuIndex), 0,', '\t\t\twgXPerGPU*uint32(gpuIndex) + 1, 0,', 1),
+ ('driver-copy-not-completed-when-flush-reply-is-last', 'amd/driver/memorycopy.go',
+  '\tif len(cmd.GetReqs()) == 0 {\n\t\tm.completeCopyCommand(cmd, cmdQueue)\n\t}\n', '\t_ = cmdQueue\n', 1),
  ('driver-emu-d2h-drops-in-page-offset', 'amd/driver/memorycopyglobalstorage.go', None, None, 0),
  ('emu-flat-store-dword-lane-stride', 'amd/emu/alu_flat.go', None, None, 0),
  ('driver-timing-d2h-without-cache-flush', 'amd/driver/memorycopy.go', None, None, 0),
